@@ -9,16 +9,20 @@ flat interpreter).
 T1  `interp_sound`         interpreter accepts  ⇒  Script accepts, with a clean stack
       * `interp_sound_full`     full statement (all fragments) — kept as a `def … : Prop`
       * `interp_sound_partial`  PROVED for the fragment set `Sup`: 0, 1, pk_k, pk_h, raw_pkh, after,
-        older, the four hashes, a:, c:, v:, n:, and_v, and_b, or_b, or_c, or_d, or_i, andor.
-        Missing: s: (needs a frame lemma "an `o` fragment consumes exactly one element"), d: (same
-        for `z`), j:, thresh, multi, multi_a (need the script-number codec round trip on
-        SIZE / ADD results and CHECKMULTISIG's key walk).
+        older, the four hashes, a:, s:, c:, d:, v:, n:, and_v, and_b, or_b, or_c, or_d, or_i, andor,
+        thresh (any k, n), multi (CHECKMULTISIG key walk, incl. the exchange argument for a Script
+        oracle that accepts more than the interpreter's), multi_a — i.e. everything the script
+        decoder can produce except `j:`.
+        Missing: j: (`SIZE 0NOTEQUAL` needs the element's length to be a 4-byte script number, i.e.
+        a bound < 2^31 on witness element sizes that the statement does not carry); sortedmulti /
+        sortedmulti_a nodes never reach the interpreter (the decoder yields multi / multi_a).
+        Uses C06's exact-argument-count lemmas (`TypeSound.args_cons`, `framed_frag`) for s: / d:,
+        C01's script-number lemmas (`SatSpec.numOk_of_lt`) and CHECKMULTISIG evaluation
+        (`SatSpec.frag_multi`) for thresh / multi / multi_a.
       * `interp_fragment_sound_partial`  the simulation per base type (B / V / K / W)
       * `interp_accept_imp_script_accepts_partial`  composition with `Thm/Bridge.lean`: the flat
         opcode interpreter accepts the encoded script
-      The lock-value side condition `LockOk` (script-number codec round trip) holds for every
-      `0 < n < 2^31` by `SatSpec.numOk_of_lt` (Lemmas/SatNum.lean, C01); it is kept as a hypothesis
-      here so that this file does not depend on another property's lemma files.
+      * `lockOk_of_lt`: the lock-value side condition `LockOk` holds for every `0 < n < 2^31`
 T2  `constraints_checked`  every reported constraint was checked successfully (ALL fragments) and
       holds in Script's environment (`constraints_hold_for_script`)
 Remaining finding, proved on the model as a counterexample to the unconditional statement:
@@ -117,6 +121,17 @@ theorem interp_accept_imp_script_accepts_partial {env : Env} {ke : KeyEnv} {ie :
     accepts env (encode ke ctx ms) c = true := by
   obtain ⟨v, o, hf, hv⟩ := interp_sound_partial (ctx := ctx) hl ag ms hs ty hty hb c cs hi
   exact (Bridge.accepts_iff_frag_nolimits env ke ctx ms c ⟨hl.op, hl.st⟩).mpr ⟨_, v, hf, rfl, hv⟩
+
+/-- the lock-value side condition of `Sup` (script-number codec round trip) holds for every value
+an `AbsLockTime` / `RelLockTime` can carry -/
+theorem lockOk_of_lt (env : Env) {n : Nat} (h0 : 0 < n) (h : n < 2 ^ 31) : LockOk env n := by
+  have ok := SatSpec.numOk_of_lt n (by omega)
+  have d4 := ok.1 env.flags.minimalNum
+  refine ⟨?_, ?_, h0, ?_, ?_⟩
+  · rw [lockVal_eq]; exact SatSpec.numDecode_5_of_4 d4
+  · rw [lockVal_eq]; exact d4
+  · rw [lockVal_eq]; exact ok.2 (by omega)
+  · show n < 2147483648; omega
 
 /-! ### T2 -/
 
@@ -280,5 +295,32 @@ example : ∃ v ops', frag envX keX .segwitv0 msX ⟨[S0], [], 0⟩ = .ok ⟨[v]
 
 example : AllValid ieX [.pk K0 S0, .after 100] :=
   constraints_checked (ke := keX) msX (absS [S0]) _ rfl
+
+/-- `thresh(1, pk(K), s:pk(K))` and `or_d(multi(1,K,K), and_v(v:pk(K), older(10)))`: the fragments
+added with C06's frame lemmas and C01's number / CHECKMULTISIG lemmas -/
+def msT : Ms := .thresh 1 (.cons (.check (.pkK 0)) (.cons (.swap (.check (.pkK 0))) .nil))
+def msM : Ms := .orD (.multi 1 [0, 0]) (.andV (.verify (.check (.pkK 0))) (.older 10))
+
+theorem supT : Sup envX keX msT :=
+  ⟨by decide, by decide, by decide, (by decide : pubkeyOk envX K0 = true),
+    ⟨(by decide : pubkeyOk envX K0 = true), rfl⟩, trivial⟩
+
+theorem supM : Sup envX keX msM :=
+  ⟨⟨rfl, by decide, by decide, by decide, fun key _ => (by decide : pubkeyOk envX K0 = true)⟩,
+    (by decide : pubkeyOk envX K0 = true), lockOk_10⟩
+
+example : ∃ v ops', frag envX keX .segwitv0 msT ⟨[S0, []], [], 0⟩ = .ok ⟨[v], [], ops'⟩ ∧ castToBool v = true :=
+  interp_sound_partial (ctx := .segwitv0) envX_nolimits envX_agree msT supT
+    ⟨⟨.B, .any, true, true⟩, ⟨.unique, true, true⟩⟩ (by decide) rfl [S0, []] [.pk K0 S0] rfl
+
+example : accepts envX (encode keX .segwitv0 msT) [S0, []] = true :=
+  interp_accept_imp_script_accepts_partial (ctx := .segwitv0) envX_nolimits envX_agree msT supT
+    ⟨⟨.B, .any, true, true⟩, ⟨.unique, true, true⟩⟩ (by decide) rfl [S0, []] [.pk K0 S0] rfl
+
+/-- for a script with `multi` the theorem applies to whatever the interpreter accepts -/
+example (c : List Bytes) (cs : List Constraint) (hi : interpTop keX ieX msM (absS c) = .ok cs) :
+    accepts envX (encode keX .segwitv0 msM) c = true :=
+  interp_accept_imp_script_accepts_partial (ctx := .segwitv0) envX_nolimits envX_agree msM supM
+    ⟨⟨.B, .any, false, false⟩, ⟨.none, true, true⟩⟩ (by decide) rfl c cs hi
 
 end MsVerif.C13
